@@ -125,42 +125,31 @@ package crypto
 //@ requires out != nil && in_len >= 0 && valid(in, in_len)
 //@ assigns *out
 
-//@ cfunc Fr_sum_vector props C04 C09
-//@ requires jointx != nil && x_len >= 0 && valid(x, x_len)
-//@ assigns *jointx
-//@ loop 1 invariant 0 <= i && i <= x_len
-//@ loop 1 assigns *jointx, i
-
-//@ cfunc E2_sum_vector_to_affine props C04 C09
-//@ requires sum != nil && y_len >= 0 && valid(y, y_len)
-//@ assigns *sum
-
-//@ cfunc E2_sum_vector props C04 C09
-//@ requires sum != nil && y_len >= 0 && valid(y, y_len)
-//@ assigns *sum
-//@ loop 1 invariant 0 <= i && i <= y_len
-//@ loop 1 assigns *sum, i
-
-//@ cfunc E2_subtract_vector props C04 C09
-//@ requires res != nil && x != nil && y_len >= 0 && valid(y, y_len)
-//@ assigns *res
-
 // (a typed-nil *pubKeyBLSBLS12381 inside a PublicKey cannot be built outside the package: the type is unexported)
 //@ pred noTypedNilKeys(ks) = forall(k, 0, len(ks), typeis(ks[k], *pubKeyBLSBLS12381) ==> unbox(ks[k], *pubKeyBLSBLS12381) != nil)
-//@ func AggregateBLSPublicKeys mode int props C01 C16 C17 C04 C09
+//@ func AggregateBLSPublicKeys mode int props C01 C16 C17 C04 C02 C09
 //@ requires noTypedNilKeys(keys)
 //@ assigns nothing
 //@ loop 1 invariant len(points) == i
+//@ loop 1 invariant [points-are-the-keys'-points] forall(k, 0, i, typeis(keys[k], *pubKeyBLSBLS12381) && points[k] == unbox(keys[k], *pubKeyBLSBLS12381).point)
 //@ ensures [empty] len(keys) == 0 ==> result0 == nil && result1 == errBLSAggregateEmptyList
+//@ ensures [not-a-bls-key] len(keys) > 0 && exists(k, 0, len(keys), !typeis(keys[k], *pubKeyBLSBLS12381)) ==> result0 == nil && iserr(result1, errNotBLSKey)
+//@ ensures [succeeds-on-bls-keys] len(keys) > 0 && forall(k, 0, len(keys), typeis(keys[k], *pubKeyBLSBLS12381)) ==> result1 == nil
 //@ ensures [identity-flag-is-cached-truthfully] result1 == nil ==> typeis(result0, *pubKeyBLSBLS12381) && fresh(unbox(result0, *pubKeyBLSBLS12381)) && pkWF(unbox(result0, *pubKeyBLSBLS12381))
+//@ ensures [result-is-the-sum-of-the-keys] result1 == nil ==> unbox(result0, *pubKeyBLSBLS12381).point == e2Affine(e2sumof(k, 0, len(keys), unbox(keys[k], *pubKeyBLSBLS12381).point))
 //@ ensures [error-class] result1 != nil ==> result0 == nil
 
 //@ func RemoveBLSPublicKeys mode int props C01 C16 C17 C04 C09
 //@ requires noTypedNilKeys(keysToRemove) && (typeis(aggKey, *pubKeyBLSBLS12381) ==> unbox(aggKey, *pubKeyBLSBLS12381) != nil)
 //@ assigns nothing
 //@ loop 1 invariant len(pointsToSubtract) == i
+//@ loop 1 invariant [points-are-the-keys'-points] forall(k, 0, i, typeis(keysToRemove[k], *pubKeyBLSBLS12381) && pointsToSubtract[k] == unbox(keysToRemove[k], *pubKeyBLSBLS12381).point)
+//@ ensures [not-a-bls-key] !typeis(aggKey, *pubKeyBLSBLS12381) ==> result0 == nil && result1 == errNotBLSKey
+//@ ensures [not-a-bls-key-to-remove] typeis(aggKey, *pubKeyBLSBLS12381) && exists(k, 0, len(keysToRemove), !typeis(keysToRemove[k], *pubKeyBLSBLS12381)) ==> result0 == nil && iserr(result1, errNotBLSKey)
+//@ ensures [succeeds-on-bls-keys] typeis(aggKey, *pubKeyBLSBLS12381) && forall(k, 0, len(keysToRemove), typeis(keysToRemove[k], *pubKeyBLSBLS12381)) ==> result1 == nil
 //@ ensures [nothing-to-remove] len(keysToRemove) == 0 && typeis(aggKey, *pubKeyBLSBLS12381) ==> result0 == aggKey && result1 == nil
 //@ ensures [identity-flag-is-cached-truthfully] result1 == nil && len(keysToRemove) > 0 ==> typeis(result0, *pubKeyBLSBLS12381) && fresh(unbox(result0, *pubKeyBLSBLS12381)) && pkWF(unbox(result0, *pubKeyBLSBLS12381))
+//@ ensures [result-is-the-key-minus-the-sum-of-the-removed-keys] result1 == nil && len(keysToRemove) > 0 ==> unbox(result0, *pubKeyBLSBLS12381).point == e2Add(unbox(aggKey, *pubKeyBLSBLS12381).point, e2Neg(e2sumof(k, 0, len(keysToRemove), unbox(keysToRemove[k], *pubKeyBLSBLS12381).point)))
 //@ ensures [error-class] result1 != nil ==> result0 == nil
 
 //@ func initBLS12381 mode int props C01 C16 C17
@@ -754,7 +743,7 @@ package crypto
 //@ pred g1pt(b) = ite(g1flagI(b), e1Inf(), e1c(fpToMont(g1x(b)), g1ysel(fpToMont(g1x(b)), (b[0]/32)%2), cglobal(BLS12_381_pR)))
 //@ pred g1canon(b) = g1flagC(b) && ite(g1flagI(b), g1infEnc(b), g1x(b) < FpP() && fpSqrtOk(g1rhs(fpToMont(g1x(b)))))
 
-//@ cfunc E1_read_bytes props C05 C09 C01
+//@ cfunc E1_read_bytes unfold=g1ptAt,g1canonAt props C05 C09 C01 C04
 //@ dead-return 6   // the sign/compression consistency test cannot fail once the compression bit was checked
 //@ requires a != nil
 //@ requires in_len == 48 ==> valid(in, 48)
@@ -762,6 +751,8 @@ package crypto
 //@ ensures [length] in_len != 48 ==> result == BAD_ENCODING
 //@ ensures [accepts-exactly-canonical] in_len == 48 ==> (result == VALID) == old(g1canon(in))
 //@ ensures [decoded-point] result == VALID ==> *a == old(g1pt(in))
+//@ ensures [accepts-exactly-canonical-as-a-function-of-the-48-bytes] in_len == 48 ==> (result == VALID) == old(g1canonAt(in))
+//@ ensures [decoded-point-as-a-function-of-the-48-bytes] result == VALID ==> *a == old(g1ptAt(in))
 //@ ensures [compression-bit] old(in_len == 48 && !g1flagC(in)) ==> result == BAD_ENCODING
 //@ ensures [infinity-canonical] old(in_len == 48 && g1flagC(in) && g1flagI(in)) ==> (result == VALID) == old(g1infEnc(in)) && (result == VALID || result == BAD_ENCODING)
 //@ ensures [infinity-value] old(in_len == 48 && g1flagI(in)) && result == VALID ==> e1IsInf(*a)
@@ -1502,41 +1493,104 @@ package crypto
 
 // ---- aggregation of signatures and private keys (C09/C19: memory safety, frames, error classes; the sums themselves
 // are not specified: no fold theory)
-//@ cfunc E1_sum_vector props C09
-//@ requires sum != nil && len >= 0 && valid(y, len)
-//@ assigns *sum
-//@ loop 1 invariant 0 <= i && i <= len
-//@ loop 1 assigns *sum, i
-
-//@ cfunc E1_sum_vector_byte props C05 C09 C19
+//@ cfunc E1_sum_vector_byte props C04 C05 C09 C19
 //@ requires in_len >= 0 && valid(in_bytes, in_len) && valid(out, 48)
 //@ assigns out[0:48]
 //@ ensures [length-must-be-a-multiple-of-48] in_len % 48 != 0 ==> result == INVALID
 //@ ensures [verdict-is-valid-or-invalid] result == VALID || result == INVALID
+//@ ensures [accepts-exactly-lists-of-canonical-encodings] (result == VALID) == old(in_len % 48 == 0 && forall(k, 0, in_len/48, at(g1canonSeqAt(in_bytes), k) == 1))
+//@ ensures [result-is-the-encoding-of-the-sum] result == VALID ==> g1encOf(out, old(e1sum(g1ptSeqAt(in_bytes), in_len/48)))
 //@ loop 1 invariant 0 <= i && i <= n && n == in_len / 48 && in_len % 48 == 0 && n >= 0 && error == UNDEFINED
+//@ loop 1 invariant [canonical-so-far] forall(k, 0, i, at(old(g1canonSeqAt(in_bytes)), k) == 1)
+//@ loop 1 invariant [current-chunk-is-named] 0 <= at(old(g1canonSeqAt(in_bytes)), i)
+//@ loop 1 invariant [decoded-so-far] forall(k, 0, i, ptAt(vec, k) == at(old(g1ptSeqAt(in_bytes)), k))
 //@ loop 1 assigns vec[0:n], i, error
 
-//@ func AggregateBLSSignatures mode int props C05 C09 C19
+//@ func AggregateBLSSignatures mode int props C04 C05 C09 C19
 //@ dead-return 1   // E1_sum_vector_byte only returns VALID or INVALID
 //@ assigns nothing
 //@ ensures [empty] len(sigs) == 0 ==> result0 == nil && result1 == errBLSAggregateEmptyList
 //@ ensures [wrong-length-signature] len(sigs) > 0 && exists(k, 0, len(sigs), len(sigs[k]) != 48) ==> len(result0) == 0 && iserr(result1, errInvalidSignature)
+//@ ensures [accepts-exactly-lists-of-canonical-encodings] len(sigs) > 0 && forall(k, 0, len(sigs), len(sigs[k]) == 48) ==> (result1 == nil) == forall(k, 0, len(sigs), at(old(seqof(j, ite(g1canonAt(sigs[j]), 1, 0))), k) == 1)
+//@ ensures [non-canonical-signature] len(sigs) > 0 && result1 != nil ==> iserr(result1, errInvalidSignature)
 //@ ensures [ok] result1 == nil ==> len(result0) == 48 && fresh(result0)
+//@ ensures [result-is-the-encoding-of-the-sum-of-the-signatures] result1 == nil ==> g1encOf(result0, old(e1sumof(k, 0, len(sigs), g1ptAt(sigs[k]))))
 //@ ensures [error] result1 != nil ==> len(result0) == 0
 //@ loop 1 invariant 0 <= i && i <= len(sigs) && len(flatSigs) == 48*i && forall(k, 0, i, len(sigs[k]) == 48)
+//@ loop 1 invariant [flat-chunks-decode-like-the-signatures] forall(k, 0, i, at(g1ptSeqAt(flatSigs), k) == at(old(seqof(j, g1ptAt(sigs[j]))), k))
+//@ loop 1 invariant [flat-chunks-are-canonical-like-the-signatures] forall(k, 0, i, at(g1canonSeqAt(flatSigs), k) == at(old(seqof(j, ite(g1canonAt(sigs[j]), 1, 0))), k))
 
-//@ func AggregateBLSPrivateKeys mode int props C09 C19
+//@ func AggregateBLSPrivateKeys mode int props C04 C09 C19
 //@ requires forall(k, 0, len(keys), typeis(keys[k], *prKeyBLSBLS12381) ==> unbox(keys[k], *prKeyBLSBLS12381) != nil)
 //@ assigns nothing
 //@ ensures [empty] len(keys) == 0 ==> result0 == nil && result1 == errBLSAggregateEmptyList
 //@ ensures [not-bls-key] len(keys) > 0 && exists(k, 0, len(keys), !typeis(keys[k], *prKeyBLSBLS12381)) ==> result0 == nil && iserr(result1, errNotBLSKey)
+//@ ensures [succeeds-on-bls-keys] len(keys) > 0 && forall(k, 0, len(keys), typeis(keys[k], *prKeyBLSBLS12381)) ==> result1 == nil
 //@ ensures [ok] result1 == nil ==> typeis(result0, *prKeyBLSBLS12381) && fresh(unbox(result0, *prKeyBLSBLS12381)) && unbox(result0, *prKeyBLSBLS12381).pk == nil
-//@ loop 1 invariant len(scalars) == i && forall(k, 0, i, typeis(keys[k], *prKeyBLSBLS12381))
+//@ ensures [result-is-the-sum-of-the-scalars] result1 == nil ==> unbox(result0, *prKeyBLSBLS12381).scalar == frsumof(k, 0, len(keys), unbox(keys[k], *prKeyBLSBLS12381).scalar)
+//@ loop 1 invariant len(scalars) == i
+//@ loop 1 invariant [scalars-are-the-keys'-scalars] forall(k, 0, i, typeis(keys[k], *prKeyBLSBLS12381) && scalars[k] == unbox(keys[k], *prKeyBLSBLS12381).scalar)
 
 //@ func IsBLSSignatureIdentity mode int props C09 C19
 //@ assigns nothing
 
-//@ func VerifyBLSSignatureOneMessage mode int props C09 C19
+//@ pred pkSum(pks) = e2sumof(k, 0, len(pks), unbox(pks[k], *pubKeyBLSBLS12381).point)
+//@ func VerifyBLSSignatureOneMessage mode int props C02 C09 C19
 //@ requires noTypedNilKeys(pks)
 //@ assigns ghost(kmac)
 //@ ensures [empty] len(pks) == 0 ==> !result0 && iserr(result1, errBLSAggregateEmptyList)
+//@ ensures [not-a-bls-key] len(pks) > 0 && exists(k, 0, len(pks), !typeis(pks[k], *pubKeyBLSBLS12381)) ==> !result0 && iserr(result1, errNotBLSKey)
+//@ ensures [nil-hasher] len(pks) > 0 && forall(k, 0, len(pks), typeis(pks[k], *pubKeyBLSBLS12381)) && kmac == nil ==> !result0 && result1 == errNilHasher
+//@ ensures [hasher-size] len(pks) > 0 && forall(k, 0, len(pks), typeis(pks[k], *pubKeyBLSBLS12381)) && kmac != nil && kmac.osize != 128 ==> !result0 && iserr(result1, *invalidHasherSizeError)
+//@ ensures [wrong-length] len(pks) > 0 && forall(k, 0, len(pks), typeis(pks[k], *pubKeyBLSBLS12381)) && hasherOK(kmac) && len(s) != 48 ==> !result0 && result1 == nil
+//@ ensures [same-as-verify-under-the-sum-of-the-keys] len(pks) > 0 && forall(k, 0, len(pks), typeis(pks[k], *pubKeyBLSBLS12381)) && hasherOK(kmac) && len(s) == 48 ==> result1 == nil && result0 == (!e2IsInf(e2Affine(pkSum(pks))) && g1canon(s) && inG1(g1pt(s)) && pairOK2(g1pt(s), negG2(), h2cd(hout(kmac.cfg, seqid(message))), e2Affine(pkSum(pks))))
+
+// =============================================================================================
+// Aggregation (C04, C02): every aggregation function returns THE sum of its inputs, as a left fold in the group it
+// works in (e1sum / e2sum / frsum: spec functions defined by n <= 0 -> identity, n > 0 -> add(sum(n-1), x[n-1])).
+// BLST's additions are the uninterpreted e1Add / e2Add / frAdd of the trusted leaves E1_add / E2_add / Fr_add.
+
+//@ cfunc Fr_set_zero nobody
+//@ requires a != nil
+//@ assigns *a
+//@ ensures *a == 0
+
+//@ cfunc Fr_add nobody
+//@ requires res != nil && a != nil && b != nil
+//@ assigns *res
+//@ ensures *res == frAdd(old(*a), old(*b))
+
+//@ cfunc Fr_sum_vector props C04 C09
+//@ requires jointx != nil && x_len >= 0 && valid(x, x_len) && obj(jointx) != obj(x)
+//@ assigns *jointx
+//@ ensures [result-is-the-sum-of-the-scalars] *jointx == frsum(x, x_len)
+//@ loop 1 invariant 0 <= i && i <= x_len
+//@ loop 1 invariant [partial-sum] *jointx == frsum(x, i)
+//@ loop 1 assigns *jointx, i
+
+//@ cfunc E2_sum_vector props C04 C02 C09
+//@ requires sum != nil && y_len >= 0 && valid(y, y_len) && obj(sum) != obj(y)
+//@ assigns *sum
+//@ ensures [result-is-the-sum-of-the-points] *sum == e2sum(y, y_len)
+//@ loop 1 invariant 0 <= i && i <= y_len
+//@ loop 1 invariant [partial-sum] *sum == e2sum(y, i)
+//@ loop 1 assigns *sum, i
+
+//@ cfunc E2_sum_vector_to_affine props C04 C02 C09
+//@ requires sum != nil && y_len >= 0 && valid(y, y_len) && obj(sum) != obj(y)
+//@ assigns *sum
+//@ ensures [result-is-the-affine-form-of-the-sum] *sum == e2Affine(e2sum(y, y_len))
+//@ ensures [infinity-is-kept] e2IsInf(*sum) == e2IsInf(e2sum(y, y_len))
+
+//@ cfunc E2_subtract_vector props C04 C09
+//@ requires res != nil && x != nil && y_len >= 0 && valid(y, y_len) && obj(res) != obj(y) && obj(res) != obj(x)
+//@ assigns *res
+//@ ensures [result-is-x-minus-the-sum] *res == e2Add(old(*x), e2Neg(e2sum(y, y_len)))
+
+//@ cfunc E1_sum_vector props C04 C02 C09
+//@ requires sum != nil && len >= 0 && valid(y, len) && obj(sum) != obj(y)
+//@ assigns *sum
+//@ ensures [result-is-the-sum-of-the-points] *sum == e1sum(y, len)
+//@ loop 1 invariant 0 <= i && i <= len
+//@ loop 1 invariant [partial-sum] *sum == e1sum(y, i)
+//@ loop 1 assigns *sum, i
